@@ -2,7 +2,7 @@ SPECIFICATION TSpec
 CONSTANTS
   Reqs = {1, 2, 3, 4, 5, 6, 7, 8, 9, 10, 11, 12}
   MaxSock = 0
-  MaxEv = 0
+  MaxEv = 1000000
   MaxUnsol = 1000
   Limit = 1
   Timed = TRUE
